@@ -187,8 +187,16 @@ def sim_part(chk, backend, faults, ckpts, io, ocp, config, everys, nsim):
     seen.add(sig)
     modes = [io.BackendMode.DEFAULT, io.BackendMode.TF] if io.io_mode == io.BackendMode.TF else [io.BackendMode.DEFAULT]
     mode = modes[idx % len(modes)]
-    with io.override_mode(mode):
-      r = replay(chk, backend, h, idx, mode.name, faults, ckpts, io, ocp.utils.TMP_DIR_SUFFIX)
+    # rendering (legacy back-end): a chunk threshold so small that every array leaf of the saved trees is written in chunks
+    from flax import serialization as _ser
+    old_chunk = _ser.MAX_CHUNK_SIZE
+    if backend != 'orbax' and idx % 3 == 2:
+      _ser.MAX_CHUNK_SIZE = 8
+    try:
+      with io.override_mode(mode):
+        r = replay(chk, backend, h, idx, mode.name, faults, ckpts, io, ocp.utils.TMP_DIR_SUFFIX)
+    finally:
+      _ser.MAX_CHUNK_SIZE = old_chunk
     n += 1
     chk.count((backend, sig), nontrivial=any(e['outcome'] != 'ok' for e in h) or len(h) > 1)
     if r:
